@@ -3,12 +3,13 @@
 HARNESSES = {
     "c13_tuner": {"src": ["harness/c13_tuner.cpp"]},
     "c13_tune_sched": {"src": ["harness/c13_tune_sched.cpp", "engine/sched.cpp"]},
+    "c13_budget": {"src": ["harness/c13_budget.cpp"]},
 }
 
 CHECKS = {
     "C13": {
         "level": "model_checking",
-        "engine": "E2 mc + E1 sched",
+        "engine": "E2 mc + E3 lattice + E1 sched",
         "technique": "exhaustive choice-point exploration of the evaluation callback's answers (all landscapes over {0,1,2} on "
                      "small grids) on the real tuners; preemption-bounded schedule exploration of ml::tune's pool",
         "level_text": "both tuners are executed on every landscape they can distinguish over a 3-value alphabet on grids up to "
@@ -21,6 +22,9 @@ CHECKS = {
         "stages": [
             {"name": "landscape", "harness": "c13_tuner", "args": ["--stage", "landscape"], "share": 0.2,
              "what": "grid-only, no repeats, <= max_evals + 3^d, sorted steps, first = minimum, steps = evaluations"},
+            {"name": "budget", "harness": "c13_budget", "share": 0.1,
+             "what": "large grids (1..3 spaces, up to 31 values) x max_evals 10..100 x structured landscapes: grid points only, "
+                     "no repeats, <= max_evals + 3^d, sorted, first = minimum"},
             {"name": "nonfinite", "harness": "c13_tuner", "args": ["--stage", "nonfinite"], "share": 0.1,
              "what": "a NaN/+inf/-inf answer at every evaluation position must make optimize() throw"},
             {"name": "tune-sched", "harness": "c13_tune_sched", "crash_is_violation": True, "args_quick": ["--budget", "2"], "share": 0.4,
